@@ -180,11 +180,10 @@ def reent_constructor(loader, node):
     """Constructor of !reent: makes a re-entrant library call chosen by the scheduler."""
     import yaml
     nested, ctx = CURRENT['nested'], CURRENT['ctx']
-    if nested is None:
-        return 'no-nested-op'
-    o = run_op(yaml, nested, ctx)
-    ctx['nested'].append([observe.digest(nested), o])
-    return 'nested:' + observe.digest(o)
+    if nested is not None:
+        o = run_op(yaml, nested, ctx)
+        ctx['nested'].append([observe.digest(nested), o])
+    return 'reent'        # the outer result must not depend on the call made in here
 
 
 _classes = {}
@@ -695,7 +694,9 @@ def execute(case):
             break
         if 'obs' in rec:
             op = rec['op']
-            want, want_nested = reference(op)
+            # the outer call is compared with itself *without* the re-entrant call: a call made from
+            # inside a constructor / a documents iterable is one more call that must not be visible
+            want, _ = reference({k: v for k, v in op.items() if k not in ('nested', 'between')})
             od = observe.digest(op)
             if prev is not None:
                 out['sigs'].append(observe.digest([od, prev]))
@@ -708,9 +709,6 @@ def execute(case):
             if rec['obs'] != want:
                 out['violations'].append({'class': 'result-differs-from-isolated-call', 'detail': dict(
                     where, op=op, diff=obs_diff(want, rec['obs']), preceding=[r.get('op') for r in res['records'][max(0, rec['step'] - 3):rec['step']]])})
-                break
-            if rec['nested'] != want_nested:
-                out['violations'].append({'class': 'nested-call-differs-from-isolated-call', 'detail': dict(where, op=op)})
                 break
             for nd, nobs in rec['nested']:
                 nop = op.get('nested') or op.get('between')
